@@ -251,9 +251,14 @@ def sort_of(ty):
     raise Unsupported(f"no sort for {ty!r}")
 
 
-def explore(run, max_paths=20000):
+def explore(run, max_paths=20000, max_seconds=None):
     """DFS over decision prefixes by re-execution.  `run(state)` executes one path and returns
-    an arbitrary outcome object.  Yields (state, outcome, error)."""
+    an arbitrary outcome object.  Yields (state, outcome, error).  Exploration of one unit is bounded in paths and in wall-clock
+    time (PYVC_EXPLORE_S, default 420 s): beyond that the unit is reported as undecided, never as held or violated."""
+    import time as _time, os as _os
+    if max_seconds is None:
+        max_seconds = float(_os.environ.get("PYVC_EXPLORE_S", "420"))
+    t0 = _time.time()
     stack = [[]]
     n = 0
     while stack:
@@ -262,6 +267,8 @@ def explore(run, max_paths=20000):
         n += 1
         if n > max_paths:
             raise Unsupported("path explosion")
+        if _time.time() - t0 > max_seconds:
+            raise Unsupported(f"path exploration exceeded its time budget ({int(max_seconds)} s, {n} paths so far)")
         outcome = None
         err = None
         try:
